@@ -103,9 +103,13 @@ pub fn index_create(j: &J) -> IndexCreateStatement {
     if j["primary"].as_bool().unwrap_or(false) { i.primary(); }
     if j["if_not_exists"].as_bool().unwrap_or(false) { i.if_not_exists(); }
     if j["full_text"].as_bool().unwrap_or(false) { i.full_text(); }
+    if j["nulls_not_distinct"].as_bool().unwrap_or(false) { i.nulls_not_distinct(); }
+    for c in j.get("include").and_then(|x| x.as_array()).map(|v| v.as_slice()).unwrap_or(&[]) { i.include(a(c.as_str().unwrap())); }
+    if let Some(w) = j.get("where").filter(|x| !x.is_null()) { i.and_where(expr(w)); }
     match j.get("index_type").and_then(|x| x.as_str()) {
         Some("BTree") => { i.index_type(IndexType::BTree); }
         Some("Hash") => { i.index_type(IndexType::Hash); }
+        Some("FullText") => { i.index_type(IndexType::FullText); }
         _ => {}
     }
     i
@@ -147,7 +151,10 @@ pub fn table_create(j: &J) -> TableCreateStatement {
     t.table(a(&st(j, "table")));
     if j["if_not_exists"].as_bool().unwrap_or(false) { t.if_not_exists(); }
     if j["temporary"].as_bool().unwrap_or(false) { t.temporary(); }
-    for c in j["cols"].as_array().unwrap() { t.col(column_def(c)); }
+    // columns alternately by value and through `&mut ColumnDef` (which goes through ColumnDef::take)
+    for (k, c) in j["cols"].as_array().unwrap().iter().enumerate() {
+        if k % 2 == 0 { t.col(&mut column_def(c)); } else { t.col(column_def(c)); }
+    }
     for i in j.get("indexes").and_then(|x| x.as_array()).map(|v| v.as_slice()).unwrap_or(&[]) {
         let mut ic = index_create(i);
         if i["primary"].as_bool().unwrap_or(false) { t.primary_key(&mut ic); } else { t.index(&mut ic); }
@@ -203,7 +210,21 @@ pub fn render_schema(j: &J) -> J {
         }};
     }
     match j["stmt"].as_str().unwrap() {
-        "table_create" => { let (r, tk) = obs_take!(table_create(j)); json!({"r": r, "take": tk}) }
+        "table_create" => {
+            let (r, tk) = obs_take!(table_create(j));
+            // ColumnDef::take: the taken definition equals the one before
+            let cols = guarded(|| {
+                let mut all = true;
+                for c in j["cols"].as_array().unwrap() {
+                    let mut cd = column_def(c);
+                    let pre = format!("{:?}", cd);
+                    let taken = cd.take();
+                    all &= pre == format!("{:?}", taken);
+                }
+                json!(all)
+            });
+            json!({"r": r, "take": tk, "coldef_take": cols})
+        }
         "table_alter" => { let (r, tk) = obs_take!(table_alter(j)); json!({"r": r, "take": tk}) }
         "index_create" => { let (r, tk) = obs_take!(index_create(j)); json!({"r": r, "take": tk}) }
         "fk_create" => { let (r, tk) = obs_take!(fk_create(j)); json!({"r": r, "take": tk}) }
